@@ -285,3 +285,72 @@ def explore(case: Case, bound: int = 0, reduce: bool = True, limit: int = 200000
                 if alt != chosen:
                     stack.append(head + (alt,))
     return st
+
+
+# ----------------------------------------------------------------------------- stock-loop conformance (DESIGN 2.5)
+
+def untimed_digest(log: t.Sequence[tuple]) -> str:
+    """Digest of a trace without virtual timestamps and step counters (comparable across loops)."""
+    rows = []
+    last = max((i for i, e in enumerate(log) if e[0] == 'returned'), default=len(log) - 1)
+    for e in log[: last + 1]:     # what happens after the last run returned is C13's business, not part of the schedule
+        if e[0] in ('deliver', 'returned', 'cancel'):
+            rows.append((e[0], e[1]))
+        elif e[0] in ('start', 'end', 'event', 'save', 'default'):
+            rows.append((e[0],) + tuple(_short(v) for v in e[1:-1]))
+        else:
+            rows.append((e[0],) + tuple(_short(v) for v in e[1:]))
+    return hashlib.sha1(repr(rows).encode()).hexdigest()[:16]
+
+
+def replay_on_stock_loop(case: Case, actions: t.Sequence[str]) -> t.Tuple[str, t.List[t.Any]]:
+    """Realise a d=0 schedule exactly on the stock asyncio event loop: a driver task yields with sleep(0)
+    and, whenever it finds the ready queue empty while it is running, the loop is quiescent and the
+    driver delivers the next external of the recorded schedule. Returns (untimed digest, outcomes)."""
+    _install()
+    chart = case.chart_factory() if case.chart_factory else codegen.chart(case.spec, case.collab)
+    world = W.World(case.plans, case.collab)
+    deliveries = [a for a in actions if a != 'step']
+    if any(a.startswith('timer@') for a in deliveries):
+        raise ValueError('schedules with timers are not replayed on the stock loop (real clock)')
+    given_inputs = [dict(i) for i in case.inputs]
+
+    async def main():
+        loop = asyncio.get_running_loop()
+        world.loop = None
+        tasks = []
+        for rid in range(len(case.inputs)):
+            async def runner(rid=rid):
+                W.RUN.set(rid)
+                return await chart.run(pipeline_id=f'run{rid}', input_kwargs=given_inputs[rid])
+            tasks.append(asyncio.ensure_future(runner()))
+        returned = set()
+        pending = list(deliveries)
+        spins = 0
+        while True:
+            await asyncio.sleep(0)
+            spins += 1
+            for rid, tk in enumerate(tasks):
+                if rid not in returned and tk.done():
+                    returned.add(rid)
+                    world.log.append(('returned', rid, 0))
+            if len(returned) == len(tasks):
+                break
+            if len(loop._ready) == 0:
+                if not pending:
+                    raise ReplayDivergence('stock loop quiescent with the run pending and no delivery left in the schedule')
+                label = pending.pop(0)
+                if label not in world.ext or not world.ext[label].alive():
+                    raise ReplayDivergence(f'stock loop: {label!r} not pending at quiescence; pending {[e.label for e in world.pending()]}')
+                world.log.append(('deliver', label, 0))
+                world.ext[label].deliver(loop)
+            if spins > 200000:
+                raise ReplayDivergence('stock loop replay did not finish')
+        return [outcome_of(tk) for tk in tasks]
+
+    W.CUR = world
+    try:
+        outcomes = asyncio.run(main())
+    finally:
+        W.CUR = None
+    return untimed_digest(world.log), outcomes
